@@ -686,7 +686,7 @@ func recvNamedOf(f *types.Func) *types.Named {
 // ---------------------------------------------------------------- P2 recover barriers
 
 // hasRecoverBarrier: fd defers a func literal that calls recover() and assigns a named result.
-func hasRecoverBarrier(info *types.Info, fd *ast.FuncDecl) bool {
+func (c *Ctx) hasRecoverBarrier(info *types.Info, fd *ast.FuncDecl) bool {
 	if fd.Type.Results == nil {
 		return false
 	}
@@ -704,6 +704,53 @@ func hasRecoverBarrier(info *types.Info, fd *ast.FuncDecl) bool {
 		}
 		lit, isLit := d.Call.Fun.(*ast.FuncLit)
 		if !isLit {
+			// `defer recoverAsError(&err)`: a declared function deferred directly (recover
+			// works one frame below the panicking function) that calls recover() and stores
+			// through the pointer it was handed, the address of a named result
+			if g := Callee(info, d.Call); g != nil {
+				if gd := c.P.Decl(g); gd != nil && gd.Body != nil {
+					ginfo := c.P.PkgOfDecl(gd).TypesInfo
+					ptrParam := map[types.Object]bool{}
+					pi := 0
+					for _, fl := range gd.Type.Params.List {
+						for _, nm := range fl.Names {
+							if pi < len(d.Call.Args) {
+								if u, isAddr := ast.Unparen(d.Call.Args[pi]).(*ast.UnaryExpr); isAddr && u.Op == token.AND {
+									if id, isId := ast.Unparen(u.X).(*ast.Ident); isId && named[info.ObjectOf(id)] {
+										ptrParam[ginfo.ObjectOf(nm)] = true
+									}
+								}
+							}
+							pi++
+						}
+					}
+					rec, assigns := false, false
+					ast.Inspect(gd.Body, func(n ast.Node) bool {
+						switch x := n.(type) {
+						case *ast.FuncLit:
+							return false // recover() in a nested function would not stop the panic
+						case *ast.CallExpr:
+							if id, isId := x.Fun.(*ast.Ident); isId {
+								if b, isB := ginfo.ObjectOf(id).(*types.Builtin); isB && b.Name() == "recover" {
+									rec = true
+								}
+							}
+						case *ast.AssignStmt:
+							for _, l := range x.Lhs {
+								if st, isStar := ast.Unparen(l).(*ast.StarExpr); isStar {
+									if id, isId := ast.Unparen(st.X).(*ast.Ident); isId && ptrParam[ginfo.ObjectOf(id)] {
+										assigns = true
+									}
+								}
+							}
+						}
+						return true
+					})
+					if rec && assigns {
+						ok = true
+					}
+				}
+			}
 			continue
 		}
 		rec, assigns := false, false
@@ -745,7 +792,7 @@ func (c *Ctx) underRecoverBarrier(f *types.Func) (bool, string) {
 		if fd == nil {
 			return false, "no declaration for " + g.Name()
 		}
-		if hasRecoverBarrier(c.P.PkgOfDecl(fd).TypesInfo, fd) {
+		if c.hasRecoverBarrier(c.P.PkgOfDecl(fd).TypesInfo, fd) {
 			return true, ""
 		}
 		if g.Exported() {
@@ -788,7 +835,7 @@ func RuleP2(c *Ctx) {
 		}
 		n++
 		key := fmt.Sprintf("%s:%s#%d", c.P.DeclName(cs.Decl), callee.Name(), n)
-		if hasRecoverBarrier(cs.Pk.TypesInfo, cs.Decl) {
+		if c.hasRecoverBarrier(cs.Pk.TypesInfo, cs.Decl) {
 			sc.Holds(key, c.P.Pos(cs.Call.Pos()), "under a recover barrier")
 		} else {
 			sc.Violation(key, c.P.Pos(cs.Call.Pos()), "reader."+callee.Name()+" panics on I/O errors and this call is not under a deferred recover() that sets the error result")
@@ -796,7 +843,7 @@ func RuleP2(c *Ctx) {
 	})
 	// inventory of barriers
 	c.P.Funcs(func(pk *pkgT, fd *ast.FuncDecl) {
-		if hasRecoverBarrier(pk.TypesInfo, fd) {
+		if c.hasRecoverBarrier(pk.TypesInfo, fd) {
 			sc.Holds("barrier:"+c.P.DeclName(fd), c.P.Pos(fd.Pos()), "deferred recover() assigns the named error result")
 		}
 	})
